@@ -219,6 +219,12 @@ class MessageManager(interfaces.TokenInterface, interfaces.MessageManager):
         """If the message is the response can be used to satisfy a future
         duplicate message, store it."""
 
+        if message.mtype not in (ACK, RST):
+            # Only replies that reuse the request's message ID answer a
+            # duplicate; a CON or NON whose fresh message ID happens to equal
+            # the peer's must not replace the stored acknowledgement.
+            return
+
         key = (message.remote, message.mid)
         if key in self._recent_messages:
             self._recent_messages[key] = message
